@@ -181,7 +181,10 @@ pub fn check_tree(info: &LangInfo, text: &[u8], tree: &Tree, full_limit: usize) 
             let got_f = n.child_by_field_id(f);
             let inner = info.name == "nestf" && n.kind() == "entry" && lang.field_name_for_id(f) == Some("item")
                 && got_f.map(|g| kids.iter().any(|&k| c.same(&g, k) && lang.field_name_for_id(xt.nodes[k].field_id) == Some("key"))).unwrap_or(false);
-            let fp_sfx = if inner { "-hidden-rule-with-inner-field" } else { "" };
+            // ... and the related one: below an ERROR node (which has no field map of its own) the inner field `key` of the hidden
+            // rule is still reported by the cursor, but child_by_field on the ERROR node finds nothing (thorough tier, '<a:a;').
+            let under_error = info.name == "nestf" && n.is_error() && lang.field_name_for_id(f) == Some("key") && got_f.is_none();
+            let fp_sfx = if inner { "-hidden-rule-with-inner-field" } else if under_error { "-inner-field-of-hidden-rule-under-error" } else { "" };
             c.expect(&format!("child_by_field_id{}", fp_sfx), &format!("#{}.child_by_field_id({})", i, f), got_f, want);
             if let Some(name) = lang.field_name_for_id(f) {
                 c.expect(&format!("child_by_field_name{}", fp_sfx), &format!("#{}.child_by_field_name({})", i, name), n.child_by_field_name(name), want);
